@@ -54,6 +54,13 @@ Record vcfg := mkV {
   v_issuer : string; v_max_age : Z; v_offset : Z; v_sub : subcheck; v_ctor : ctor
 }.
 
+(* op.NewJWTProfileVerifier / ...KeySet (..., opts...): every op.SubjectCheck(f) option SETS
+   the verifier's check - it replaces whatever was there, the built-in default included.
+   Passed several times the last one is in force; without the option the default
+   op.SubjectIsIssuer stays.  [v_sub] of a verifier built with options is
+   [subject_options opts]. *)
+Definition subject_options (opts : list subcheck) : subcheck := last opts SubIsIssuer.
+
 Definition second : Z := 1000000000%Z.
 Definition half_second : Z := 500000000%Z.
 Definition round_s (t : Z) : Z := (((t + half_second) / second) * second)%Z.
@@ -205,8 +212,25 @@ End Assertion.
 (* The library's client helpers (the producing side of the interop clause). *)
 
 (* one call of a helper: the clock bracket [h_t0, h_t1] (ns) around the call that
-   produced the assertion, and the lifetime (s) the helper asks for (1 h everywhere) *)
-Record hcall := mkH { h_t0 : Z; h_t1 : Z; h_life : Z }.
+   produced the assertion, the lifetime (s) the helper asks for (1 h everywhere), the client
+   id the caller configured the helper with, and the subject the caller ASKED for with the
+   assertion option oidc.JWTProfileDelegatedSubject(s) ([None]: no such option - the helper
+   writes sub = iss = the client; only the oidc.NewJWTProfileAssertion... family takes options) *)
+Record hcall := mkH { h_t0 : Z; h_t1 : Z; h_life : Z; h_client : string; h_sub : option string }.
+
+(* the subject a helper call is asked to write *)
+Definition asked_sub (o : option string) (client : string) : string :=
+  match o with Some s => s | None => client end.
+
+(* does the configured subject check let subject [sub] of client [client] through?
+   (no check at all lets nothing through: the call panics) *)
+Definition subject_allowed (s : subcheck) (client sub : string) : bool :=
+  match s with
+  | SubIsIssuer => String.eqb sub client
+  | SubAny => true
+  | SubOnly x => String.eqb sub x
+  | SubNil => false
+  end.
 
 (* the claims a helper call writes when its time.Now() read [tb] (ns) *)
 Definition helper_claims (client : string) (auds : list string) (life tb : Z) : claims :=
@@ -215,6 +239,17 @@ Definition helper_claims (client : string) (auds : list string) (life tb : Z) : 
 Definition helper_token (client : string) (auds : list string) (life : Z) (alg kid : string)
     (key : keyid) (tb : Z) : token claims :=
   TJws (mkSig true alg kid key true) (helper_claims client auds life tb).
+
+(* the same with assertion options: oidc.NewJWTProfileAssertion(client, kid, aud, key,
+   oidc.JWTProfileDelegatedSubject(s), oidc.JWTProfileCustomClaim(k, v) ...) - the delegated
+   subject replaces sub, iss stays the client; custom claims are no claims of the profile *)
+Definition helper_claims_opt (client : string) (dsub : option string) (auds : list string)
+    (life tb : Z) : claims :=
+  mkClaims client (asked_sub dsub client) auds (tb / second) (tb / second + life).
+
+Definition helper_token_opt (client : string) (dsub : option string) (auds : list string) (life : Z)
+    (alg kid : string) (key : keyid) (tb : Z) : token claims :=
+  TJws (mkSig true alg kid key true) (helper_claims_opt client dsub auds life tb).
 
 (* ONE helper instance called at the clock readings [tbs]: every call signs a new
    assertion for its own clock reading *)
